@@ -1094,7 +1094,16 @@ def call_asyncio(it, name, args, kwargs):
         return Coro(run_wait, label="wait")
     if name == "sleep":
         _use(it, "model:asyncio.sleep returns None (may be cancelled only where the contract says so)")
-        return Coro(lambda: None, label="sleep")
+        delay = args[0] if args else kwargs.get("delay")
+
+        def do_sleep():
+            # the requested delays are recorded (ghost list `sleeps`) so that contracts can speak about them
+            log = getattr(it.engine, "spec_locals", {}).get("sleeps")     # declared by the contract (ghost_init)
+            if log is None:
+                log = it.ctx.ghost.setdefault("sleeps", it.ctx.alloc(HList([])))
+            it.ctx.deref(log).items.append(delay)
+            return None
+        return Coro(do_sleep, label="sleep")
     if name == "CancelledError":
         return ExcValue("CancelledError", tuple(args))
     return NotImplemented
